@@ -335,3 +335,225 @@ def c02_routes_task(shard, tid, n, order, via, routes, tts_stride, tts_offset,
                if tts_offset == 0 else [])
     af.release()
     return res
+
+
+# ======================= C03: quantification =======================
+def subsets(xs):
+    xs = list(xs)
+    for k in range(len(xs) + 1):
+        for c in itertools.combinations(xs, k):
+            yield list(c)
+
+
+def c03_sweep_task(shard, tid, n, order, via, us_stride, us_offset, seed,
+                   extra_names=0):
+    """quantify / exist / forall / apply(\\A, \\E) for every subset of variables."""
+    import dd.autoref as _autoref
+    ab = _autoref.BDD()
+    af = AllFunctions(n, order, via=via, mgr=ab._bdd)
+    b = af.bdd
+    refs = af.refs()[us_offset::us_stride]
+    sf = SweepFile(shard, tid, af, meta=dict(driver='c03_sweep', n=n))
+    names = af.names
+    fps = set()
+    k = 0
+    for K in subsets(names):
+        for fa in (False, True):
+            route = ['quantify', 'short', 'autoref'][k % 3]
+            k += 1
+            if route == 'quantify':
+                rs = [safe(lambda: b.quantify(u, set(K), forall=fa)) for u in refs]
+            elif route == 'short':
+                if fa:
+                    rs = [safe(lambda: b.forall(set(K), u)) for u in refs]
+                else:
+                    rs = [safe(lambda: b.exist(set(K), u)) for u in refs]
+            else:
+                rs = []
+                for u in refs:
+                    try:
+                        f = ab._wrap(u)
+                        if u % 2:
+                            g = ab.forall(set(K), f) if fa else ab.exist(set(K), f)
+                        else:
+                            g = f.forall(*K) if fa else f.exist(*K)
+                        rs.append(int(g))
+                        del f, g
+                    except Exception:
+                        rs.append(0)
+            sf.row('row.quantify', len(rs), qvars=K, forall=fa, route=route,
+                   us=refs, rs=rs)
+            fps.add(('c03', n, tuple(order), tuple(K), fa, route))
+            if K:
+                # apply with a cube-shaped (and a non-cube) first operand whose support is K
+                cube = b.cube({x: True for x in K})
+                sym = [['\\E', 'exists'], ['\\A', 'forall']][fa][k % 2]
+                rs = [safe(lambda: b.apply(sym, cube, v)) for v in refs]
+                sf.row('row.apply', len(rs), sym=sym, u=cube, vs=refs, rs=rs)
+                if len(K) >= 2:
+                    x = b.apply('xor', b.var(K[0]), b.cube({y: True for y in K[1:]}))
+                    rs = [safe(lambda: b.apply(sym, x, v)) for v in refs]
+                    sf.row('row.apply', len(rs), sym=sym, u=x, vs=refs, rs=rs)
+    sf.close()
+    res = dict(shard=shard, traces=1, events=sf.results, rows=sf.rows,
+               fingerprints=fps,
+               samples=[dict(kind='quantifier sweep', n=n, order=order,
+                             call='quantify(u, K, forall) for all u, every K')]
+               if us_offset == 0 else [])
+    af.release()
+    return res
+
+
+# ======================= C04: let =======================
+def c04_sweep_task(shard, tid, n, order, via, us_stride, us_offset, seed,
+                   compose_rows=40, part=0, nparts=1):
+    rng = random.Random(seed)
+    af = AllFunctions(n, order, via=via)
+    b = af.bdd
+    allrefs = af.refs()
+    refs = allrefs[us_offset::us_stride]
+    sf = SweepFile(shard, tid, af, meta=dict(driver='c04_sweep', n=n))
+    names = af.names
+    fps = set()
+    k = 0
+    # cofactor: all 3^n partial assignments
+    for vals in itertools.product([None, False, True], repeat=n):
+        k += 1
+        if k % nparts != part:
+            continue
+        d = {nm: v for nm, v in zip(names, vals) if v is not None}
+        if not d:
+            continue
+        route = ['let', 'direct'][k % 2]
+        if route == 'let':
+            rs = [safe(lambda: b.let(dict(d), u)) for u in refs]
+        else:
+            rs = [safe(lambda: b.cofactor(u, dict(d))) for u in refs]
+        nms = sorted(d)
+        sf.row('row.cofactor', len(rs), names=nms, vals=[d[x] for x in nms],
+               route=route, us=refs, rs=rs)
+        fps.add(('cof', n, tuple(order), tuple(sorted(d.items()))))
+    # rename: all (n+1)^n variable-to-variable maps (None = not in the dict)
+    for tos in itertools.product([None] + names, repeat=n):
+        k += 1
+        if k % nparts != part:
+            continue
+        d = {nm: t for nm, t in zip(names, tos) if t is not None}
+        if not d:
+            continue
+        route = ['let', 'method', 'function'][k % 3]
+        if route == 'let':
+            rs = [safe(lambda: b.let(dict(d), u)) for u in refs]
+        elif route == 'method':
+            rs = [safe(lambda: b.rename(u, dict(d))) for u in refs]
+        else:
+            rs = [safe(lambda: _bdd.rename(u, b, dict(d))) for u in refs]
+        nms = sorted(d)
+        sf.row('row.rename', len(rs), names=nms, tos=[d[x] for x in nms],
+               route=route, us=refs, rs=rs)
+        fps.add(('ren', n, tuple(order), tuple(sorted(d.items()))))
+    # compose: sampled tuples of replacement functions (incl. ones that
+    # mention the replaced variables, complemented ones, constants)
+    for i in range(compose_rows):
+        m = rng.randint(1, n)
+        vs = rng.sample(names, m)
+        d = {x: rng.choice(allrefs) for x in vs}
+        route = ['let', 'direct'][i % 2]
+        if route == 'let':
+            rs = [safe(lambda: b.let(dict(d), u)) for u in refs]
+        else:
+            rs = [safe(lambda: b.compose(u, dict(d))) for u in refs]
+        nms = sorted(d)
+        sf.row('row.compose', len(rs), names=nms, refs=[d[x] for x in nms],
+               route=route, us=refs, rs=rs)
+        fps.add(('cmp', n, tuple(order), tuple(sorted(d.items()))))
+    sf.close()
+    res = dict(shard=shard, traces=1, events=sf.results, rows=sf.rows,
+               fingerprints=fps,
+               samples=[dict(kind='let sweep', n=n, order=order,
+                             call='let({x: False, y: True}, u) / let({x: "y", y: "x"}, u) / let({x: g, y: h}, u) for all u')]
+               if us_offset == 0 and part == 0 else [])
+    af.release()
+    return res
+
+
+# ======================= C10: support, count, pick =======================
+def c10_sweep_task(shard, tid, n, order, via, us_stride, us_offset, seed,
+                   extra=1):
+    """`extra` additional declared variables that no function depends on."""
+    import dd.autoref as _autoref
+    ab = _autoref.BDD()
+    af = AllFunctions(n, order, via=via, mgr=ab._bdd)
+    b = af.bdd
+    # extra declared names (never in any support): supersets for care sets
+    xs = ['x%d' % i for i in range(extra)]
+    for x in xs:
+        b.add_var(x)
+    af.names = af.names + xs          # universe now includes them
+    refs = af.refs()[us_offset::us_stride]
+    sf = SweepFile(shard, tid, af, meta=dict(driver='c10_sweep', n=n))
+    names = af.names
+    fps = set()
+    rs = [safe(lambda: sorted(b.support(u)), []) for u in refs]
+    sf.row('row.support', len(rs), us=refs, sups=rs)
+    rs = []
+    for u in refs:
+        f = ab._wrap(u)
+        rs.append(sorted(f.support))
+        del f
+    sf.row('row.support', len(rs), us=refs, sups=rs, route='Function.support')
+    for nm in names + ['undeclared_name']:
+        bs = [bool(b.is_essential(u, nm)) for u in refs]
+        sf.row('row.essential', len(bs), name=nm, us=refs, bs=bs)
+    for nv in [-1] + list(range(0, len(names) + 3)):
+        cs = []
+        for i, u in enumerate(refs):
+            try:
+                if i % 2:
+                    c = b.count(u, nv) if nv >= 0 else b.count(u)
+                else:
+                    f = ab._wrap(u)
+                    c = f.count(nv) if nv >= 0 else f.count()
+                    del f
+                cs.append(int(c))
+            except Exception:
+                cs.append(-1)
+        sf.row('row.count', len(cs), n=nv, us=refs, cs=cs)
+        fps.add(('count', n, tuple(order), nv))
+    asg = lambda m: dict(n=sorted(m), v=[bool(m[k]) for k in sorted(m)])
+    for care in [None] + list(subsets(names)):
+        ms = []
+        for u in refs:
+            try:
+                it = b.pick_iter(u, care_vars=set(care) if care is not None else None)
+                ms.append([asg(m) for m in it])
+            except Exception:
+                ms.append([dict(n=['?'], v=[True])])
+        sf.row('row.pick_iter', len(ms), care=care or [],
+               care_default=care is None, us=refs, ms=ms)
+        fps.add(('pick_iter', n, tuple(order), tuple(care or ['<default>'])))
+        pm, nones = [], []
+        for i, u in enumerate(refs):
+            try:
+                if i % 2:
+                    r = b.pick(u, care_vars=set(care) if care is not None else None)
+                else:
+                    f = ab._wrap(u)
+                    r = f.pick(care_vars=set(care) if care is not None else None) \
+                        if hasattr(f, 'pick') else ab.pick(f, care_vars=set(care) if care is not None else None)
+                    del f
+                nones.append(r is None)
+                pm.append(asg(r) if r is not None else dict(n=[], v=[]))
+            except Exception:
+                nones.append(False)
+                pm.append(dict(n=['?'], v=[True]))
+        sf.row('row.pick', len(pm), care=care or [], us=refs, ms=pm,
+               nones=nones)
+    sf.close()
+    res = dict(shard=shard, traces=1, events=sf.results, rows=sf.rows,
+               fingerprints=fps,
+               samples=[dict(kind='sat sweep', n=n, order=order,
+                             call='support/count(n)/pick_iter(care)/pick for all u')]
+               if us_offset == 0 else [])
+    af.release()
+    return res
